@@ -171,6 +171,11 @@ def fault_part(ctx):
     rng = ctx.rng
     idx = 0
     for pi, prog in enumerate(progs):
+        if pi % 3 == 1:
+            # the service keeps an audit note in the recording under a key of its own that happens to start like the framework's output keys
+            prog['body'].insert(0, {'op': 'record_data', 'key': ['output: audit summary', 'output:', 'input: cached', 'output: x #1', 'output: y #one.output'][pi % 5],
+                                    'value': {'lit': {'note': pi}}})
+            ctx.count('programs_recording_data_under_framework_like_keys')
         pls = fr.all_placements(prog, pairs=True, max_pairs=25 if ctx.quick else 400, rng=random.Random(pi))
         # recording switched off while the operation is in flight (kill switch), alone and together with one other fault
         steps = [pos for pos, op, dn in fr.dry_trace(prog) if pos[0] == 'main']
@@ -340,6 +345,51 @@ def disabled_passthrough_part(ctx):
             ctx.violation('cassette touched although recording is disabled', {'disabled_shapes': True, 'state': state, 'calls': [e[0] for e in spy.log][:5]})
 
 
+def interrupt_while_the_framework_works(ctx):
+    """An interrupt-style exception (Ctrl-C, a watchdog derived from BaseException) arrives while the framework does its own work on the
+    service's thread - here: while it encodes the finished recording for the cassette. It is the service's interrupt: it reaches the
+    caller, it is never swallowed (the undecorated run has no such work, so the oracle is stated directly)."""
+    from playback.tape_recorder import TapeRecorder
+    from vlib.cassettes import open_box
+    from vlib.values import InterruptLike
+
+    class ArrivesDuringEncoding(object):
+        """Stands for the signal: the first time the serializer asks for this object's state, the interrupt is raised."""
+        fired = 0
+
+        def __getstate__(self):
+            type(self).fired += 1
+            raise InterruptLike('interrupt delivered while the recording is being encoded')
+    for kind in ('memory', 'file', 's3'):
+        for via in ('output', 'record_data'):
+            with open_box(kind) as box:
+                rec = TapeRecorder(box.cassette)
+                rec.enable_recording()
+                ArrivesDuringEncoding.fired = 0
+
+                class Report(object):
+                    @rec.intercept_output('report.publish')
+                    def publish(self, what):
+                        return 'published'
+
+                    @rec.operation()
+                    def run(self):
+                        if via == 'output':
+                            self.publish(ArrivesDuringEncoding())
+                        else:
+                            rec.record_data('attachment', ArrivesDuringEncoding())
+                        return 'report done'
+                try:
+                    outcome = ('returned', Report().run())
+                except BaseException as ex:  # noqa
+                    outcome = ('raised', type(ex).__name__)
+                w = {'interrupt_during_encoding': True, 'cassette': kind, 'via': via}
+                ctx.case(w)
+                ctx.count('interrupts_delivered_while_the_framework_encodes', ArrivesDuringEncoding.fired)
+                if ArrivesDuringEncoding.fired and outcome != ('raised', 'InterruptLike'):
+                    ctx.violation('an interrupt-style exception raised while the framework was working on the service\'s thread did not reach the caller: %r' % (outcome,), w)
+
+
 def async_dead_flusher(ctx):
     """Asynchronous cassette whose background thread is gone (killed by a storage error that derives from BaseException; the same
     state a worker forked from a pre-fork master is in): recordings are lost, the recorded service must not notice."""
@@ -390,6 +440,7 @@ def run(ctx):
     if ctx.shard == 0:
         async_dead_flusher(ctx)
         disabled_passthrough_part(ctx)
+        interrupt_while_the_framework_works(ctx)
     try:
         from checks import C04_sched
     except ImportError:
@@ -401,6 +452,8 @@ def run(ctx):
 
 
 def replay(ctx, w):
+    if w.get('interrupt_during_encoding'):
+        return interrupt_while_the_framework_works(ctx)
     if w.get('disabled_shapes'):
         return disabled_passthrough_part(ctx)
     if 'schedule' in w:
